@@ -11,15 +11,32 @@ package parser
 // macroRe has exactly one capture group: \$\(([^\$]+)\)
 //@ axiom macro-regexp-one-group: numSubexp(macroRe) == 1
 
+// validateNodeName: a name is accepted exactly when it is well-formed: not empty, its first character (the rune decoded
+// at byte 0, not the byte) is not a decimal digit, and every character is a letter, a digit or one of . - _
+// (unicode.IsDigit / unicode.IsLetter are left uninterpreted: functions of the rune; runeAt/runeWidth are the decoding
+// that range-over-string performs).
+//@ uninterp func uIsDigit(r rune) bool
+//@ uninterp func uIsLetter(r rune) bool
+//@ extern func unicode.IsDigit(r rune) bool
+//@   ensures result == uIsDigit(r)
+//@ extern func unicode.IsLetter(r rune) bool
+//@   ensures result == uIsLetter(r)
+//@ pure func nameRuneOK(r rune) bool = uIsLetter(r) || uIsDigit(r) || r == 46 || r == 45 || r == 95
+//@ rec func nameOK(s string, p int) bool = (p >= len(s) || runeWidth(s, p) <= 0) ? true : (nameRuneOK(runeAt(s, p)) && nameOK(s, p + runeWidth(s, p)))
+//@ pure func wellFormedName(s string) bool = len(s) > 0 && !uIsDigit(runeAt(s, 0)) && nameOK(s, 0)
 //@ func validateNodeName
 //@   prop C20
 //@   nopanic
+//@   ensures (result == nil) == wellFormedName(s)
+//@   loop 0 invariant nameOK(s, 0) == nameOK(s, iterpos()) && 0 <= iterpos() && iterpos() <= len(s)
 //@ func (*parseContext).readNode
 //@   prop C20
 //@   nopanic
 //@   requires ctx != nil && ctx.macros != nil && ctx.snippets != nil
 //@   modifies *
 //@   ensures ctx.macros != nil && ctx.snippets != nil
+// ... and a node that is returned without error and is neither a macro definition nor a snippet has a well-formed name
+//@   ensures result1 == nil && !result0.Macro && !result0.Snippet ==> wellFormedName(result0.Name)
 //@   loop 0 invariant ctx.macros != nil && ctx.snippets != nil
 //@   loop 1 invariant ctx.macros != nil && ctx.snippets != nil
 //@ func (*parseContext).isSnippet
